@@ -386,6 +386,19 @@ def family_wild(tier, seed):
         ops = [{"op": "new", "shape": "S"}, {"op": "sweep", "inst": 1, "seq": seq[:len(seq) // 2]},
                {"op": "sweep", "inst": 1, "seq": seq[len(seq) // 2:]}]
         out.append({"id": "wild/pair/%d" % c, "shapes": {"S": shape}, "ops": ops})
+    # (value, mask) pairs whose value carries bits OUTSIDE the mask: those bits are wildcards and do not matter
+    rndo = random.Random(1921 + seed)
+    allp = [(v, m) for m in range(1 << W) for v in range(1 << W) if v & ~m]
+    pick = allp if tier != "quick" else rndo.sample(allp, 36)
+    for c in range(0, len(pick), per):
+        cps = []
+        for i, (v, m) in enumerate(pick[c:c + per]):
+            cps.append({"name": "w%d" % i, "var": "a", "bins": [{"name": "wb", "kind": "wild", "pats": [[v, m]]}]})
+            if (m >> (W - 1)) & 1:
+                cps.append({"name": "wa%d" % i, "var": "a", "bins": [{"name": "wab", "kind": "wildarray", "n": (c + i) % 3, "pats": [[v, m]]}]})
+        shape = {"cls": "CGW", "vars": {"a": {"w": W}}, "cps": cps}
+        out.append({"id": "wild/outside/s%d/%d" % (seed, c), "shapes": {"S": shape},
+                    "ops": [{"op": "new", "shape": "S"}, {"op": "sweep", "inst": 1, "seq": [{"a": x} for x in range(1 << W)]}]})
     # witnesses of the known finding: array patterns whose leading bits are wildcards
     for t, (v, m, n) in enumerate([(0, 0b0111, 0), (1, 0b0001, 2), (0, 0, 0)]):
         shape = {"cls": "CGW", "vars": {"a": {"w": 4}},
